@@ -22,6 +22,8 @@ mod c17;
 mod c18;
 mod c19;
 mod c20;
+mod kin;
+mod pms;
 
 fn main() {
   let args: Vec<String> = std::env::args().collect();
@@ -53,6 +55,8 @@ fn main() {
     "c18" => c18::run(rest),
     "c19" => c19::run(rest),
     "c20" => c20::run(rest),
+    "kin" => kin::run(rest),
+    "pms" => pms::run(rest),
     other => {
       eprintln!("unknown property {}", other);
       std::process::exit(2);
